@@ -18,7 +18,7 @@ N = {"quick": 3000, "thorough": 40000}
 EXHAUSTIVE = {"quick": False, "thorough": False}
 RULE = ("cases = corpus + a systematic sweep of chunking shapes (n rules on one level x max_threads 1..16, thorough: every "
         "n in 1..24; quick: n in 1,4,..,22 x selected thread counts; debug_mode alternating off / configured engine / both engines) "
-        "+ a contention family + 12 action-kind cases (one parallelised level whose rules carry every ActionType there is: Set, MethodCall, "
+        "+ a contention family + a SLOW-WORKER family (6 cases, thorough 24: one level - every third case two - of simple rules really split over 2..16 workers; in the perturbed repetition ONE worker - first, middle or last - sleeps 1.3 s / 2.5 s (a few short delays 5..900 ms too) at its schedule point before it evaluates its chunk, in the middle of it, or before it publishes its results, the other workers running freely: the harness defines the C symbol sched_yield itself and picks a schedule seed under which that point is the only one that yields, so the unchanged hook delays exactly that worker; a run in which no worker took the delay reports slow-not-taken) + N/8 UNUSUAL-RULE-NAME cases (name tokens %L<pad>.<w>.<k> / %h<hex>, opaque for the model: names longer than 40 / 64 / 255 / 16 / 32 / 128 / 256 / 1024 bytes with a 2-, 3- or 4-byte character at every alignment around that offset, multi-byte only, long ASCII, the empty name, blanks, newline / NUL / separators / quotes / format braces, names differing only in case or normalisation form, and in a quarter of them the same name twice in one knowledge base (add_rule rejects the later rule: it is on neither path); debug_mode off / configured engine / sequential engine / both in equal parts, parallelism off in 1/6; half random plain cases, half one or two levels of simple rules most of which fire) + 12 action-kind cases (one parallelised level whose rules carry every ActionType there is: Set, MethodCall, "
         "Log, Retract, Append, Custom with no function registered, the four workflow kinds) + N/6 cases of the EXTENDED grammar (a plain "
         "case or session in which 2/5 of the leaves are replaced by Value::Expression right-hand sides - the GRL parser's form of `a > b`, "
         "`a > U.x`, `a > b + 1`: bare field names and one-step + - * arithmetic over integers, integral floats, numeric strings, booleans, "
@@ -67,7 +67,7 @@ ASSUMPTIONS = [
     "literals are decimal integers or words that Rust's f64 parser rejects; no Null / Array / Expression values; no custom functions registered, no accumulate/exists/forall/multifield/function-call conditions "
     "(accumulate conditions and registered custom functions can write the shared facts: outside the theorem's ReadOnly hypothesis)",
     "max_threads >= 1 (max_threads = 0 panics in usize::div_ceil when a level is parallelised: modelled as an explicit error, corpus case)",
-    "rule names are unique (KnowledgeBase::add_rule rejects duplicates); salience i32 modelled as Int",
+    "rule names are opaque identifiers, unique per knowledge base (KnowledgeBase::add_rule rejects a name that is already there: the driver drops such a rule from the case before the model sees it, the harness checks that add_rule did reject it); salience i32 modelled as Int",
     "a worker thread does not panic (the typed-core evaluator has no panicking path); execution_time / parallel_speedup / the debug text not observed",
     "the engine is stateless between calls (the model evaluates every call of a session as the same function of that call's rules and facts)",
 ]
